@@ -8,7 +8,7 @@ func init() {
 	addRun("C05", "scanner buffer on token soups and long runs across the 1024-byte window under chunked readers, three quarters fault-free and one quarter failing from/at call k (lines 'ROB scan'), compared with Model/ROBScanBuf; hang/panic of a scanner call is a violation", func(c *Ctx) { robScanRun(c, false) })
 	addRun("C05", "Resolve over scripted object graphs (chains up to 300 references, cycles, failing Get; lines 'ROB resolve') compared with Model/ROBErr.resolveLoop; more than MaxExtractDepth Get calls is a violation", robResolveRun)
 	addRun("C05", c05Rule, robC05Run)
-	addRun("C05", "targeted whole files: Writer output that ENDS inside a cross-reference table (every cut position in the first two entries), right after an object header or inside the header line; object streams whose integer members are followed by every variant of a (non-)reference tail inside and across the member extent and the 64-byte look-ahead of getFromObjStm/referenceTail ('2 0 R' at the end, next offset inside the integer, equal and unordered offsets, 63/70 blanks, 6/7 generation digits, '2 0 Rx', high bytes), plain and Flate; same walk and oracle as the mutation run", robC05xRun)
+	addRun("C05", "targeted whole files: Writer output that ENDS inside a cross-reference table (every cut position in the first two entries), right after an object header or inside the header line; object streams whose integer members are followed by every variant of a (non-)reference tail inside and across the member extent and the 64-byte look-ahead of getFromObjStm/scanner.readReferenceTail ('2 0 R' at the end, comments, 2000-byte comments and 5000 blanks inside the tail, signed and 300-digit generations, next offset inside the integer, equal and unordered offsets, 63/70 blanks, 6/7 generation digits, '2 0 Rx', high bytes), plain and Flate; same walk and oracle as the mutation run", robC05xRun)
 	addRun("C05", "GetFilters on /Filter arrays of 1..40 names: more than maxFilterChainLength (8, documented cap) must be refused", robFilterChainRun)
 	addRun("C05", "EXHAUSTIVE token sequences up to length 8 (array body) / 6 (dictionary value) over {integer, R, name} read by ReadObject (lines 'ROB scan … o'), compared with Model/Scan; a panic is a violation", robTokenSeqRun)
 	addRun("C05", "linked structures x graph shapes x walkers: page tree, name tree, number tree and outline rendered from 12 graph families (chain, child listed twice/thrice, child+grandchild, lattice, self loop, 2-cycle, back edge, fan, random DAG, random graph) of depth 1..40 (thorough ..300); pagetree.Iterator/FindPages, nametree and numtree FromFile.All/Lookup/ExtractInMemory/Size, outline.Decode run over a metering Getter; more than 64*objects+256 object fetches, a panic or a hang is a violation", robC05wRun)
